@@ -1358,15 +1358,15 @@ Example base64_ex3 :
 Proof. vm_compute. reflexivity. Qed.
 Example base64_ex4 :
   find_base64 (L"VGhlIHF1aWNrIGJyb3duIGZveCBqdW1w&#xD;&#xA;cyBvdmVyIHRoZSBsYXp5IGRvZyEh")
-  = Ok [Node [] (L"The quick brown fox jump") (L"encoding.base64") 0 32 []; Node [] (L"s over the lazy dog!!") (L"encoding.base64") 42 70 []].
+  = Ok [Node [] (L"The quick brown fox jumps over the lazy dog!!") (L"encoding.base64") 0 70 []].
 Proof. vm_compute. reflexivity. Qed.
 Example base64_ex5 :
   find_base64 (L"VGhlIHF1aWNrIGJyb3duIGZveCBqdW1w&#xAcyBvdmVyIHRoZSBsYXp5IGRvZyEh")
-  = Ok [].
+  = Ok [Node [] (L"The quick brown fox jump") (L"encoding.base64") 0 32 []].
 Proof. vm_compute. reflexivity. Qed.
 Example base64_ex6 :
   find_base64 (L"VGhlIHF1aWNrIGJyb3du&#xAIGZveCBqdW1wcyBvdmVy&#xAIHRoZSBsYXp5IGRvZyEh")
-  = Ok [Node [] [84;104;101;32;113;117;105;99;107;32;98;114;111;119;110;196;2;6;102;247;130;6;167;86;215;7;50;6;247;102;87;44;64;32;116;104;101;32;108;97;122;121;32;100;111;103;33;33]%N (L"encoding.base64") 0 68 []].
+  = Ok [].
 Proof. vm_compute. reflexivity. Qed.
 Example base64_ex7 :
   find_base64 [86;71;104;108;73;72;70;49;97;87;78;114;73;71;74;121;60;0;32;32;0;98;51;100;117;73;71;90;118;101;67;66;113;100;87;49;119;99;121;66;118;100;109;86;121;73;72;82;111;90;83;66;115;89;88;112;53;73;71;82;118;90;121;69;104]%N
